@@ -28,8 +28,10 @@ DefVal(kind, k) == IF kind \in TinyKinds THEN B(5 + k)
 \* slot: which key the script is built from (0 = the output's own position; for funding kinds the
 \* channel whose keys are used, 0 = the next channel).  Outputs of one kind with the same slot carry
 \* the SAME script_pubkey (and path).
-Out(kind, v) == [kind |-> kind, v |-> v, slot |-> 0]
-OutS(kind, v, slot) == [kind |-> kind, v |-> v, slot |-> slot]
+\* al: the output's script is ALSO put into the allowlist as an address (class memberships overlap)
+Out(kind, v) == [kind |-> kind, v |-> v, slot |-> 0, al |-> FALSE]
+OutS(kind, v, slot) == [kind |-> kind, v |-> v, slot |-> slot, al |-> FALSE]
+OutA(kind, v, al) == [kind |-> kind, v |-> v, slot |-> 0, al |-> al]
 OutsOf(kinds) == [k \in 1..Len(kinds) |-> Out(kinds[k], DefVal(kinds[k], k))]
 Chan(val, outbound, push, commit, at) ==
   [val |-> val, outbound |-> outbound, push |-> push, commit |-> commit, at |-> at]
@@ -40,7 +42,7 @@ GoodChansFor(outs) ==
 Skel(pol, inKinds, outs, chans, listed, xpub) ==
   [pol |-> pol, ver |-> 2, pad |-> 0,
    ins |-> [k \in 1..Len(inKinds) |-> [kind |-> inKinds[k], v |-> Big0, slot |-> 0]],
-   outs |-> outs, chans |-> chans, listed |-> listed, xpub |-> xpub]
+   outs |-> outs, chans |-> chans, listed |-> listed, xpub |-> xpub, ownxpub |-> FALSE]
 
 \* inputs 2.. carry k satoshi each, input 1 the rest of `total`
 Oth(sk) == SumInt([k \in 1..Len(sk.ins) |-> k], LAMBDA k : IF k = 1 THEN 0 ELSE k)
@@ -69,7 +71,11 @@ FeeSpecs ==
     [n |-> "w32+over", fam |-> "wrap32"],
     [n |-> "w64-1", fam |-> "wrap64"], [n |-> "w64+0", fam |-> "wrap64"], [n |-> "w64+9", fam |-> "wrap64"],
     [n |-> "1e15", fam |-> "huge"], [n |-> "under1", fam |-> "under"], [n |-> "underall", fam |-> "under"] }
-FS(n) == CHOOSE f \in FeeSpecs : f.n = n
+\* fees as large as an output: what a validator that counts an output twice would not see
+BurnSpecs ==
+  { [n |-> "out1", fam |-> "burn"], [n |-> "out1+cap", fam |-> "burn"], [n |-> "out1+cap+1", fam |-> "burn"],
+    [n |-> "outL+cap", fam |-> "burn"] }
+FS(n) == CHOOSE f \in FeeSpecs \cup BurnSpecs : f.n = n
 IsUnder(f) == f.fam = "under"
 Fee(sk, n) ==
   CASE n = "zero" -> Big0 [] n = "one" -> B(1) [] n = "half" -> BDiv(CapCode(sk), 2)
@@ -79,6 +85,9 @@ Fee(sk, n) ==
     [] n = "w32+over" -> W32(sk, sk.pol.maxfr + 5)
     [] n = "w64-1" -> BSub(N64, B(1)) [] n = "w64+0" -> N64 [] n = "w64+9" -> BAdd(N64, B(9))
     [] n = "1e15" -> <<0, 0, 0, 0, 0, 1, 0, 0>>
+    [] n = "out1" -> sk.outs[1].v [] n = "out1+cap" -> BAdd(sk.outs[1].v, CapCode(sk))
+    [] n = "out1+cap+1" -> BAdd(sk.outs[1].v, BAdd(CapCode(sk), B(1)))
+    [] n = "outL+cap" -> BAdd(sk.outs[Len(sk.outs)].v, CapCode(sk))
 Total(sk, f) ==
   IF f.n = "under1" THEN (IF BLt(Big0, SumOuts(sk)) THEN BSub(SumOuts(sk), B(1)) ELSE Big0)
   ELSE IF f.n = "underall" THEN B(Oth(sk))
@@ -274,7 +283,30 @@ G7twin ==
     : a \in {<<1, 2>>, <<2, 1>>}, cm \in {"active", "none"}}
 G7 == G7rep \cup G7fund \cup G7in \cup G7twin
 
-Stateless(T) == G1(T) \cup G2(T) \cup G3(T) \cup G4 \cup G5 \cup G7
+\* G8: OVERLAPPING class memberships - a wallet address that is also allowlisted as an address, or covered
+\* by the node's OWN account xpub in the allowlist (with the right path, a wrong path, no path), an
+\* allowlisted-xpub script that is also listed, an allowlisted script that is a channel's funding script
+\* (good and defective channels), a foreign script listed and given with a path ...; with fees as large
+\* as the overlapping output (each output counts ONCE) under unlimited and limited fee velocity
+G8kinds == {"W", "Ws", "Wt", "Wk", "Wx", "Wl", "Wn", "X", "Xk", "Xx", "Xn", "U", "Up"}
+G8fees  == {FS("one"), FS("cap"), FS("cap+1"), FS("rcap+1"), FS("under1")} \cup BurnSpecs
+G8own ==
+  UNION {UNION {UNION {UNION {UNION {
+    LET sk == [Skel(p, <<"p2wpkh">>, outs, <<>>, TRUE, TRUE) EXCEPT !.ownxpub = ox] IN StepsOf("G8", sk, G8fees, TRUE)
+    : outs \in {<<OutA(k, B(100017), al)>>, <<OutA(k, B(100017), al), Out("W", B(200017))>>,
+                <<Out("W", B(200017)), OutA(k, B(100017), al)>>}}
+    : p \in {PU, PH}}
+    : ox \in (IF KindTab[k].own = "wallet" THEN BOOLEAN ELSE {FALSE})}
+    : al \in BOOLEAN} : k \in G8kinds}
+G8fund ==
+  UNION {UNION {UNION {
+    StepsOf("G8", Skel(PU, <<"p2wpkh">>, <<OutA(kind, Delta(ChanVal, x.d), TRUE), Out("W", B(200017))>>,
+                       <<Chan(ChanVal, x.ob, B(x.push), x.cm, at)>>, TRUE, TRUE),
+            {FS("one"), FS("out1+cap"), FS("cap+1")}, TRUE)
+    : at \in {0, 1}} : kind \in {x.kind, "Fp"}} : x \in SD}
+G8 == G8own \cup G8fund
+
+Stateless(T) == G1(T) \cup G2(T) \cup G3(T) \cup G4 \cup G5 \cup G7 \cup G8
 
 \* G6: sessions on one node under a small hourly fee velocity limit; `jump` moves the clock
 \* past the whole window before the step
@@ -295,8 +327,13 @@ SessSk3 == LET outs == OutsOf(<<"F", "W">>) IN Skel(PH, <<"p2wpkh">>, outs, Good
 SessCap(sk, n) ==
   [grp |-> "G6", fee |-> n, fam |-> "session", approve |-> TRUE, jump |-> FALSE]
     @@ SetIns(sk, BAdd(SumOuts(sk), CapCode(sk)))
+\* an output that is in the wallet AND allowlisted, 10 000 sat lost per step (below the fee cap):
+\* three of them exceed the hourly limit - the velocity accounting must see each
+SessSk4 == Skel(PH, <<"p2wpkh">>, <<OutA("W", B(50000), TRUE)>>, <<>>, TRUE, TRUE)
+SessOvl == [grp |-> "G6", fee |-> "ovl", fam |-> "session", approve |-> TRUE, jump |-> FALSE]
+             @@ SetIns(SessSk4, B(60000))
 SessAlphabet == {SessStep(n, j) : n \in {"cap", "fill", "fill+1", "one", "w64+0"}, j \in BOOLEAN}
-                  \cup {SessCap(SessSk2, "cap2"), SessCap(SessSk3, "cap3")}
+                  \cup {SessCap(SessSk2, "cap2"), SessCap(SessSk3, "cap3"), SessOvl}
 Sessions(T) ==
   LET n == IF T = "quick" THEN 3 ELSE 4 IN
   {s \in [1..n -> SessAlphabet] : ~s[1].jump}
@@ -311,6 +348,6 @@ GroupSteps(T, g) ==
     [] g = "G1c" -> G1part(T, {"Xk", "Xt", "Xs", "Xx", "Xn"})
     [] g = "G1d" -> G1part(T, {"U", "Ut", "Up", "F", "Fb", "Fp"})
     [] g = "G2"  -> G2(T)
-    [] g = "G345" -> G3(T) \cup G4 \cup G5 \cup G7
+    [] g = "G345" -> G3(T) \cup G4 \cup G5 \cup G7 \cup G8
 GroupSessions(T, g) == IF g = "G6" THEN Sessions(T) ELSE {<<s>> : s \in GroupSteps(T, g)}
 =============================================================================
